@@ -4,5 +4,6 @@ CONSTANTS
   MaxFields = 2
   EmitMod = 1000000
   WarmInSeedOrder = FALSE
+  GenInSeedOrder = FALSE
 INVARIANTS OrderIndependent
 CHECK_DEADLOCK FALSE
